@@ -292,11 +292,18 @@ package tars
 //@   allocates
 //@   ensures [C15] (!old(e.directProxy) && len(old(e.activeEpf)) > 0 && !result1) ==> result0 != nil
 //@   ensures [C15] (old(e.directProxy) && len(old(e.activeEp)) == 0) ==> result0 == nil
+//@   site Mutex).Lock#0 ghost e.gunlisted = false
+//@   site Tars2endpoint#0 ghostafter e.gkey = $ret.Key
+//@   site Map).Delete#0 assert [C15] $0 == e.checkAdapterList && $1 == ifaceof(e.gkey, "string")
+//@   site Map).Delete#0 ghost e.gunlisted = true
+//@   ensures [C15] result1 ==> e.gunlisted
 //
 // ------------------------------------------------------------------ taking endpoints out of rotation (property C15)
 // checkStatus removes an endpoint from the rotation (the three selectors and the active list) only when
 // checkActive has just blocked it, and checkActive blocks only with at least overN (2) failures recorded; an
 // adapter is queued for probing only when checkActive asks for a probe. Sequential reading of the sync.Maps.
+// A probe candidate handed out by SelectAdapterProxy (second result true) has been taken off the pending list
+// under its own key (ghost e.gkey / e.gunlisted above), so that a probe that fails can be queued again.
 //
 //@ pred healthOK(a) = a != nil && a.tarsClient != nil && a.lastFailCount <= a.failCount && a.lastSuccessTime >= 0 && a.lastBlockTime >= 0 && a.lastCheckTime >= 0
 //@ pred epListHealthy(e) = forall k: iface {select(e.epList.val, k)} :: select(e.epList.dom, k) ==> (istype(select(e.epList.val, k), "*AdapterProxy") && healthOK(cast(select(e.epList.val, k), "*AdapterProxy")))
